@@ -4,6 +4,7 @@ package c12
 import (
 	"errors"
 	"fmt"
+	"io/fs"
 	"os"
 	"sort"
 	"strings"
@@ -44,9 +45,22 @@ var opFn = map[string]avfs.FnVFS{
 // composites: built on other primitives; a fault inside them only has to surface as an error
 var composite = map[string]bool{"Create": true, "WriteFile": true, "ReadFile": true, "ReadDir": true, "Glob": true, "MkdirTemp": true, "WalkDir": true, "CreateTemp": true, "Mtime": true, "RenameTemp": true}
 
-type sentinelErr struct{ s string }
+type sentinelErr struct {
+	s string
+	// notExist: the injected error also answers errors.Is(err, fs.ErrNotExist) - an error of the kind the
+	// composites themselves branch on - while the call in flight is one of those in notExistFor
+	notExist func() bool
+}
 
 func (e *sentinelErr) Error() string { return e.s }
+
+func (e *sentinelErr) Is(target error) bool {
+	return target == fs.ErrNotExist && e.notExist != nil && e.notExist()
+}
+
+// composites that must report a failed primitive whatever kind of error it failed with (RemoveAll and
+// MkdirAll, which by contract treat "does not exist" as nothing to do, are not among them)
+var notExistFor = map[string]bool{"MkdirTemp": true, "CreateTemp": true, "ReadFile": true, "WriteFile": true, "ReadDir": true, "Open": true, "Create": true, "Stat": true, "Mkdir": true}
 
 // builtOn is the model of "the primitives a composite is built on" (package os and the
 // library's documentation: ReadFile opens, reads and closes a file, ...). A successful
@@ -62,6 +76,7 @@ var builtOn = map[string][]avfs.FnVFS{
 
 type inst struct {
 	kind    string
+	cur     string   // kind of the op in flight
 	a, b    avfs.VFS // base behind FailFS, twin base
 	ff      *failfs.FailFS
 	through fsx.FS // failfs or failfs.Sub(view)
@@ -89,7 +104,10 @@ func newInst(cs Case) (*inst, error) {
 		in.roots = []string{"/a", "/b", "/c", "/home", "/root", "/tmp", "/w"}
 	}
 	in.ff = failfs.New(a)
-	in.sent = &sentinelErr{fmt.Sprintf("verif-sentinel-%d-%d", cs.Fn, cs.K)}
+	in.sent = &sentinelErr{s: fmt.Sprintf("verif-sentinel-%d-%d", cs.Fn, cs.K)}
+	if (cs.Fn+cs.K)%2 == 0 {
+		in.sent.notExist = func() bool { return notExistFor[in.cur] }
+	}
 	switch cs.Plan {
 	case "none":
 	case "readonly":
@@ -137,6 +155,7 @@ func (in *inst) step(c *vt.Ctx, cs Case, o fsx.Op) (*vt.Deviation, bool) {
 		d.Detail = fmt.Sprintf("FailFS(%s) plan=%s %s: %s", in.kind, cs.Plan, o, detail)
 		return d
 	}
+	in.cur = o.K
 	before := in.snap(in.a, true)
 	firedBefore := in.fired
 	cBefore := in.counts[opFn[o.K]]
